@@ -66,6 +66,12 @@ func checkC10(r *Report, p *Program) {
 	r10_5(r, p)
 	r10_6(r, p, entries)
 	r10_7(r, p)
+	// the parent the sync continues with is the live one the finalizer write saw (shared with C12/C13)
+	rmwResultSet(r, p, "R10.8")
+	// a failed finalizer add/remove is an error of SyncObject, never a silent continue without the finalizer (R12.1 on the finalizer code)
+	errorRule(r, p, "R10.9", 2, func(f *ssa.Function) bool {
+		return strings.HasSuffix(p.File(f), "common/finalizer/finalizer.go")
+	})
 }
 
 func r10_1(r *Report, p *Program, entries []syncEntry) {
@@ -280,17 +286,33 @@ func r10_3(r *Report, p *Program) {
 		paths, err := engine.EnumPaths(f, engine.EnumOpts{})
 		ok, why := err == nil, ""
 		seen := map[string]bool{}
+		membership := false
 		for _, pa := range paths {
 			rt, isR := pa.End.(*ssa.Return)
-			if !isR || E(rt.Results[0]) != "true" {
+			if !isR || len(pa.Ret) != 1 || E(pa.Ret[0]) == "false" {
 				continue
 			}
+			_ = rt
 			matched := false
-			for _, l := range pa.Lits {
+			lits := append([]Lit(nil), pa.Lits...)
+			if len(pa.Ret) == 1 {
+				if _, isC := pa.Ret[0].(*ssa.Const); !isC {
+					lits = append(lits, engine.CondLit(pa.Ret[0], true)) // 'return a || b': the last disjunct is the returned value
+				}
+			}
+			for _, l := range lits {
 				if l.Pos && l.Op.String() == "==" {
 					if s, isC := constStr(l.Y); isC {
 						seen[s] = true
 						matched = true
+					}
+				}
+				// membership form: slices.Contains(obj.GetFinalizers(), "<name>")
+				if c, isC := l.Cond.(*ssa.Call); isC && l.Pos && strings.Contains(engine.CallKey(c.Common()), "slices.Contains") && len(c.Common().Args) == 2 {
+					if s, isS := constStr(c.Common().Args[1]); isS && strings.Contains(E(c.Common().Args[0]), "GetFinalizers)(p0)") {
+						seen[s] = true
+						matched = true
+						membership = true
 					}
 				}
 			}
@@ -302,7 +324,7 @@ func r10_3(r *Report, p *Program) {
 			ok, why = false, sf("tests %v, want exactly [foregroundDeletion orphan]", sortedSet(seen))
 		}
 		// ranges over the object's finalizers
-		if len(engine.LoopOver(f, re(`GetFinalizers\)\(p0\)`))) != 1 {
+		if !membership && len(engine.LoopOver(f, re(`GetFinalizers\)\(p0\)`))) != 1 {
 			ok, why = false, "does not range over obj.GetFinalizers()"
 		}
 		r.Check(rule, FK(f), p.Pos(f.Pos()), ok, "true ⇔ some finalizer ∈ {foregroundDeletion, orphan}", why)
